@@ -4,6 +4,7 @@ import (
 	"go/ast"
 	"go/token"
 	"go/types"
+	"strings"
 
 	"golang.org/x/tools/go/cfg"
 )
@@ -830,4 +831,335 @@ func checkCommitWalkerReleasesBeforeWaiting(c *Ctx, rule string) {
 	c.check(!bad && nAcq > 0, rule, f.ID, p.Pos(f.Decl.Pos()),
 		"the walker's own slot is released before it waits for a slot for a sub-directory",
 		"commitUploadDir waits for a free slot (send into the semaphore) while still holding its own (the release runs only at function exit): on a tree where more walkers wait than there are slots every slot is held by a waiting walker and the commit never finishes")
+}
+
+// checkReadCountConsumed (C01, C02, C16): io.Reader may return n > 0 together with io.EOF. Every caller of Read in the
+// data path must therefore use the count before it lets the error end the transfer successfully: on no path from a Read
+// to a success exit of the function (a return whose error is certainly nil) may the count be unused.
+// Scope: every function of pkg/cafs, pkg/storage and pkg/storage/localfs calling io.Reader.Read with both results bound.
+func checkReadCountConsumed(c *Ctx, rule string) int {
+	p := c.P
+	n := 0
+	for _, pk := range []string{"pkg/cafs", "pkg/storage", "pkg/storage/localfs"} {
+		for _, f := range p.FuncsIn(pk) {
+			if f.Decl.Body == nil {
+				continue
+			}
+			info := f.Info()
+			type site struct {
+				call *ast.CallExpr
+				nVar *types.Var
+			}
+			var sites []site
+			ast.Inspect(f.Decl.Body, func(nd ast.Node) bool {
+				as, ok := nd.(*ast.AssignStmt)
+				if !ok || len(as.Lhs) != 2 || len(as.Rhs) != 1 {
+					return true
+				}
+				call, ok := ast.Unparen(as.Rhs[0]).(*ast.CallExpr)
+				if !ok {
+					return true
+				}
+				id := calleeID(info, call)
+				if id != "io.Reader.Read" && id != "io.ReadCloser.Read" {
+					return true
+				}
+				nid, ok := as.Lhs[0].(*ast.Ident)
+				if !ok || nid.Name == "_" {
+					return true
+				}
+				v, _ := info.Defs[nid].(*types.Var)
+				if v == nil {
+					v, _ = info.Uses[nid].(*types.Var)
+				}
+				if v != nil {
+					sites = append(sites, site{call, v})
+				}
+				return true
+			})
+			for _, s := range sites {
+				n++
+				var body *Body
+				if l := innermostLit(f, s.call); l != nil {
+					body = p.LitBody(f, l)
+				} else {
+					body = p.BodyOf(f)
+				}
+				const idle, pending = 1, 2
+				var bad ast.Node
+				usesN := func(nd ast.Node) bool {
+					found := false
+					ast.Inspect(nd, func(m ast.Node) bool {
+						if _, isLit := m.(*ast.FuncLit); isLit {
+							return false
+						}
+						if id, ok := m.(*ast.Ident); ok && info.Uses[id] == s.nVar {
+							found = true
+						}
+						return !found
+					})
+					return found
+				}
+				body.run(flowSpec{
+					entry: idle,
+					node: func(nd ast.Node, st uint64) uint64 {
+						if _, isDefer := nd.(*ast.DeferStmt); isDefer {
+							return st
+						}
+						isSite := false
+						for _, call := range callsIn(nd) {
+							if call == s.call {
+								isSite = true
+							}
+						}
+						if isSite {
+							return pending
+						}
+						if st&pending != 0 && usesN(nd) {
+							// a use inside a pure condition (n == 0) does not consume the bytes, but any other does
+							if _, isExpr := nd.(ast.Expr); !isExpr {
+								return idle
+							}
+						}
+						return st
+					},
+					exit: func(blk *cfg.Block, ret *ast.ReturnStmt, st uint64) {
+						if st&pending == 0 || bad != nil {
+							return
+						}
+						if ret == nil {
+							if body.Sig == nil || body.errResultIndex() < 0 {
+								return
+							}
+							bad = body.Block
+							return
+						}
+						if body.errResultIndex() >= 0 && body.classifyReturn(ret) == retSuccess && !usesN(ret) {
+							bad = ret
+						}
+					},
+				})
+				c.check(bad == nil, rule, callKey(f, s.call), p.Pos(s.call.Pos()),
+					"the byte count of this Read is used on every path to a success return",
+					"a success return is reachable from this Read without its byte count having been used (the error — typically io.EOF — is tested first): a reader that returns its last bytes together with io.EOF loses them, and the operation reports success with truncated content"+posOf(p, bad))
+			}
+		}
+	}
+	return n
+}
+
+func posOf(p *Prog, n ast.Node) string {
+	if n == nil {
+		return ""
+	}
+	return " (exit at " + p.Pos(n.Pos()) + ")"
+}
+
+// innermostLit returns the innermost function literal of f containing n, or nil.
+func innermostLit(f *FuncInfo, n ast.Node) *ast.FuncLit {
+	var best *ast.FuncLit
+	for _, l := range f.Lits {
+		if l.Pos() <= n.Pos() && n.End() <= l.End() {
+			if best == nil || (l.Pos() >= best.Pos() && l.End() <= best.End()) {
+				best = l
+			}
+		}
+	}
+	return best
+}
+
+// checkWriterIntakeClosedWorld (C01, C02): the leaf protocol of the cafs writer (buffer, offset, leaf counter, flush
+// goroutines) is driven by Write / flush / Flush only. Another method taking bytes in (e.g. an io.ReaderFrom that io.Copy
+// would prefer over Write) is a second, unreviewed implementation of the chunking: UNDECIDED until reviewed.
+func checkWriterIntakeClosedWorld(c *Ctx, rule string) {
+	p := c.P
+	reviewed := map[string]string{
+		"pkg/cafs.fsWriter.Write": "the checked intake (window, hand-off, counter rules)",
+		"pkg/cafs.fsWriter.flush": "trailing leaf",
+		"pkg/cafs.fsWriter.Flush": "hand-shake and root",
+		"pkg/cafs.defaultFs.writer": "constructor",
+	}
+	n := 0
+	for _, f := range p.FuncsIn("pkg/cafs") {
+		if f.Decl.Body == nil {
+			continue
+		}
+		info := f.Info()
+		touches := ""
+		ast.Inspect(f.Decl.Body, func(nd ast.Node) bool {
+			switch x := nd.(type) {
+			case *ast.AssignStmt:
+				for _, l := range x.Lhs {
+					if sel, ok := ast.Unparen(l).(*ast.SelectorExpr); ok {
+						if s := info.Selections[sel]; s != nil && namedTypeID(s.Recv()) == "pkg/cafs.fsWriter" && (sel.Sel.Name == "offset" || sel.Sel.Name == "buf" || sel.Sel.Name == "count") {
+							touches = "assigns fsWriter." + sel.Sel.Name
+						}
+					}
+				}
+			case *ast.IncDecStmt:
+				if sel, ok := ast.Unparen(x.X).(*ast.SelectorExpr); ok {
+					if s := info.Selections[sel]; s != nil && namedTypeID(s.Recv()) == "pkg/cafs.fsWriter" && (sel.Sel.Name == "offset" || sel.Sel.Name == "count") {
+						touches = "steps fsWriter." + sel.Sel.Name
+					}
+				}
+			case *ast.GoStmt:
+				if calleeID(info, x.Call) == "pkg/cafs.pFlush" {
+					touches = "starts pFlush"
+				}
+			}
+			return true
+		})
+		if touches == "" {
+			continue
+		}
+		n++
+		if why, ok := reviewed[f.ID]; ok {
+			c.ok(rule, f.ID, p.Pos(f.Decl.Pos()), f.ID+" "+touches+": "+why)
+			continue
+		}
+		c.add(rule, f.ID, p.Pos(f.Decl.Pos()), OK, f.ID+" "+touches+": NOT reviewed")
+		c.softUndecided("%s: %s %s but is not one of the reviewed drivers of the writer's leaf protocol (Write, flush, Flush): a second intake path (e.g. io.ReaderFrom, which io.Copy prefers over Write) chunks and hashes on its own and is not covered by the hand-off, counter and window rules", rule, f.ID, touches)
+	}
+	if n < 2 {
+		c.fail(rule, "pkg/cafs:writer-drivers", "-", "expected the 2 functions driving the writer's buffer today (Write, flush), found "+itoa(n))
+	}
+}
+
+// checkFlushGuard (C02): a trailing flush adds a leaf iff bytes are pending: the only early return of fsWriter.flush is
+// `offset == 0`. (An empty content has no leaf: its key is the root over zero leaves.)
+func checkFlushGuard(c *Ctx, rule string) {
+	p := c.P
+	f := p.Func("pkg/cafs.fsWriter.flush")
+	ok := false
+	got := "no early return"
+	if len(f.Decl.Body.List) > 0 {
+		if ifs, isIf := f.Decl.Body.List[0].(*ast.IfStmt); isIf && ifs.Init == nil && ifs.Else == nil {
+			got = nos(describeExpr(f, ifs.Cond, 0))
+			if len(ifs.Body.List) == 1 {
+				if r, isRet := ifs.Body.List[0].(*ast.ReturnStmt); isRet && len(r.Results) == 2 && isNil(f.Info(), r.Results[1]) {
+					ok = got == "(recv.offset==const:0)"
+				}
+			}
+		}
+	}
+	c.check(ok, rule, f.ID, p.Pos(f.Decl.Pos()),
+		"flush adds a leaf exactly when bytes are pending (early return iff offset == 0)",
+		"the early return of fsWriter.flush is guarded by `"+got+"` instead of `offset == 0`: a zero-length leaf is hashed and stored for some contents (e.g. empty content), so their key is no longer the documented tree over their leaves and differs from keys computed before the change")
+}
+
+// checkDownloadWrites (C04, C05): a bundle entry download reports success only after it wrote the entry to the
+// destination: every success return of downloadBundleEntrySyncMaybeOverwrite follows ConsumableStore.Put.
+func checkDownloadWrites(c *Ctx, rule string) {
+	p := c.P
+	f := p.Func("pkg/core.downloadBundleEntrySyncMaybeOverwrite")
+	b := p.BodyOf(f)
+	isPut := func(bd *Body, call *ast.CallExpr) bool {
+		if calleeID(bd.Info(), call) != "pkg/storage.Store.Put" {
+			return false
+		}
+		sel := ast.Unparen(call.Fun).(*ast.SelectorExpr)
+		return describeExpr(f, sel.X, 0) == "param#2.ConsumableStore"
+	}
+	bad, nSucc := b.mustPassBeforeSuccess(isPut)
+	c.check(len(bad) == 0 && nSucc > 0, rule, f.ID, p.Pos(f.Decl.Pos()),
+		"every success return follows the Put of the entry into the consumable store",
+		"downloadBundleEntrySyncMaybeOverwrite can report success without writing the entry (e.g. because something already exists at that path): a truncated or foreign file is kept and the result differs from a fresh download")
+}
+
+// checkDeleteBundleCallers (C06): only the explicit delete operations call DeleteBundle.
+func checkDeleteBundleCallers(c *Ctx, rule string) {
+	p := c.P
+	allowed := map[string]string{
+		"pkg/core.DeleteRepo": "explicit repo deletion",
+		"pkg/core.RepoSquash": "explicit squash",
+	}
+	n := 0
+	for _, cs := range callersOf(p, "pkg/core.DeleteBundle") {
+		if strings.HasPrefix(cs.Fn.ID, "cmd/") {
+			continue // command line entry points of the explicit delete
+		}
+		n++
+		why, ok := allowed[cs.Fn.ID]
+		c.check(ok, rule, callKey(cs.Fn, cs.Call), p.Pos(cs.Call.Pos()),
+			"DeleteBundle called from "+cs.Fn.ID+": "+why,
+			"DeleteBundle is called from "+cs.Fn.ID+", which is not an explicit delete/squash operation: a bundle that is (or has just become) visible can lose its descriptor and file lists — e.g. a clean-up after a reported upload failure removes a bundle whose descriptor write did land, or one another writer just committed under the same ID")
+	}
+	if n < 2 {
+		c.fail(rule, "pkg/core.DeleteBundle:callers", "-", "expected the 2 callers confirmed by hand, found "+itoa(n))
+	}
+}
+
+// checkLocalfsDeleteOnlyKey (C16): localfs.Delete removes the object of its key and nothing else (in particular no
+// parent directory: Put creates the directory and the file in two steps, and a concurrent create of a sibling key
+// would fail with ENOENT in between).
+func checkLocalfsDeleteOnlyKey(c *Ctx, rule string) {
+	p := c.P
+	f := p.Func("pkg/storage/localfs.localFS.Delete")
+	info := f.Info()
+	n := 0
+	ast.Inspect(f.Decl.Body, func(nd ast.Node) bool {
+		call, ok := nd.(*ast.CallExpr)
+		if !ok {
+			return true
+		}
+		id := calleeID(info, call)
+		if !hasSuffixAny(id, "afero.Fs.Remove", "afero.Fs.RemoveAll", "afero.Fs.Rename") {
+			return true
+		}
+		n++
+		arg := describeExpr(f, call.Args[0], 0)
+		c.check(arg == "param#1" && strings.HasSuffix(id, "afero.Fs.Remove"), rule, callKey(f, call), p.Pos(call.Pos()),
+			"Delete removes exactly the file of its key",
+			"localfs.Delete also removes `"+arg+"` (not the key it was given): removing a directory between a concurrent Put's MkdirAll and its OpenFile makes that create-if-absent write of a different, absent key fail — the store no longer behaves like a flat object store under concurrency")
+		return true
+	})
+	if n == 0 {
+		c.fail(rule, f.ID, p.Pos(f.Decl.Pos()), "localfs.Delete no longer removes the key's file")
+	}
+}
+
+// checkWALDecoderAcceptsWhatAddStores (C19): UnmarshalWAL fails only on nil input or on a YAML error: Add applies no
+// content validation, so a decoder that rejects some contents (e.g. an empty payload) makes every listing whose window
+// contains such an entry fail as a whole.
+func checkWALDecoderAcceptsWhatAddStores(c *Ctx, rule string) {
+	p := c.P
+	f := p.Func("pkg/model.UnmarshalWAL")
+	b := p.BodyOf(f)
+	info := f.Info()
+	bad := ""
+	ast.Inspect(f.Decl.Body, func(nd ast.Node) bool {
+		r, ok := nd.(*ast.ReturnStmt)
+		if !ok || len(r.Results) != 2 || b.classifyReturn(r) == retSuccess {
+			return true
+		}
+		// allowed: returning the yaml error variable, or a failure inside `if <param> == nil`
+		if id, ok := ast.Unparen(r.Results[1]).(*ast.Ident); ok {
+			if v, ok := info.Uses[id].(*types.Var); ok {
+				for _, d := range defsOfVarWithIndex(f, v) {
+					if call, ok := d.rhs.(*ast.CallExpr); ok && d.rhs != nil && calleeID(info, call) == "gopkg.in/yaml.v2.Unmarshal" {
+						return true
+					}
+				}
+			}
+		}
+		for x := f.parentOf(r); x != nil; x = f.parentOf(x) {
+			if ifs, ok := x.(*ast.IfStmt); ok && encloses(ifs.Body, r.Pos()) {
+				d := nos(describeExpr(f, ifs.Cond, 0))
+				if d == "(param#0==nil)" {
+					return true
+				}
+				if strings.Contains(d, "yaml.v2.Unmarshal(") {
+					return true
+				}
+				bad = d
+			}
+		}
+		if bad == "" {
+			bad = "unconditional"
+		}
+		return true
+	})
+	c.check(bad == "", rule, f.ID, p.Pos(f.Decl.Pos()),
+		"UnmarshalWAL fails only on nil input or a YAML error",
+		"UnmarshalWAL rejects entries under `"+bad+"`, a content condition WAL.Add does not enforce: an entry Add accepted makes every ListEntries covering it fail")
 }
